@@ -26,3 +26,7 @@ add("C03", "model_checking",
     "Every journal of up to N directives over positions in three foreign commodities and six price declarations (sparse, inverse, chained, redeclared) on three dates is valued by the real `balance -v` for two valuation commodities and several windows/intervals; each asset/liability cell is compared with quantity x latest price <= column date (reference prices from the C12 specification), mirror income accounts with the accumulated gain, other rows with booking-day values, all within one 8-decimal truncation per arithmetic step; a missing price must give a clean failure.",
     "Trusted: reference prices/valuation (ref/valuation.go), table reader, in-process driver (validated on a subset against the plain binary). --from is not exercised (see assumptions).",
     "bounded exhaustive input x configuration enumeration against a reference model", "DESIGN.md 4 C03, A.7, A.8")
+add("C09", "model_checking",
+    "Every accepted journal of up to N body directives over an alphabet with trailing-zero, negative, zero and 8-decimal amounts, accruals, @performance, multi-balance assertions, Unicode names and multi-line descriptions is printed by the real `print`; the printed text must pass `check`, printing it again must reproduce it byte for byte, and six `balance` flag sets (unvalued/valued, months, diff, no-close) must give byte-identical reports on original and printed journal.",
+    "Trusted: in-process driver, overlay (canonical map order makes byte comparison meaningful). Journals longer than N are outside the bound.",
+    "bounded exhaustive input enumeration with fixpoint and differential oracles", "DESIGN.md 4 C09")
